@@ -1,7 +1,7 @@
 //! C13 - RTMP message bodies follow the specification and convert back losslessly.
 
 use crate::fw::{lib_call, Check, Out, Plan, Tier};
-use crate::refs::amf;
+use crate::refs::amf::{self, V};
 use crate::refs::msg::{self, RMsg, KNOWN_TYPE_IDS, UC_EVENTS};
 use crate::rng::{hex_short, mix, Rng};
 use bytes::Bytes;
@@ -60,7 +60,7 @@ fn encode_direction(m: &RMsg, rng: &mut Rng, out: &mut Out) {
         Some(r) => r,
         None => return,
     };
-    let expressible = m.amf_expressible();
+    let expressible = m.amf_expressible() && m.amf_depth() <= 32;
     let payload = match r {
         Ok(p) => p,
         Err(_) if !expressible => {
@@ -237,7 +237,7 @@ impl Check for C13 {
     }
     fn plan(&self, tier: Tier) -> Plan {
         let mut p = Plan::new(tier.pick(60_000, 6_000_000), tier.pick(25.0, 360.0));
-        p.mandatory = 2;
+        p.mandatory = 3;
         p
     }
     fn selftest(&self) -> Result<(), String> {
@@ -313,6 +313,30 @@ impl Check for C13 {
             for l in 0..3u8 {
                 encode_direction(&RMsg::SetPeerBw(rng.u32_boundary(), l), rng, out);
             }
+            return;
+        }
+        if k == 2 {
+            // nesting around any depth limit the AMF0 codec may have: whatever the encoder accepts
+            // must convert back, whatever the leaf and whatever the containers
+            let leaves: Vec<V> = vec![V::Null, V::Bool(true), V::Num(1.5f64.to_bits()), V::Str("leaf".into()), V::Arr(vec![]), V::Obj(vec![]), V::Arr(vec![V::Num(1.5f64.to_bits())]), V::Arr(vec![V::Num(0), V::Num(1)]), V::Arr(vec![V::Null]), V::Obj(vec![("n".into(), V::Num(7))])];
+            let mut n = 0u64;
+            for depth in [1usize, 8, 31, 32, 33, 62, 63, 64, 65, 126, 127, 128, 129, 130, 131, 200, 255, 256, 257] {
+                for leaf in leaves.iter() {
+                    for style in 0..3 {
+                        let mut v = leaf.clone();
+                        for i in 0..depth {
+                            v = match (style, i % 2) {
+                                (0, _) | (2, 0) => V::Arr(vec![v]),
+                                _ => V::Obj(vec![("p".to_string(), v)]),
+                            };
+                        }
+                        let m = if style == 1 { RMsg::Command { name: "call".into(), txid: 1f64.to_bits(), obj: V::Null, args: vec![v] } } else { RMsg::Data(vec![amf::s("onData"), v]) };
+                        encode_direction(&m, rng, out);
+                        n += 1;
+                    }
+                }
+            }
+            out.count("deeply_nested_messages", n);
             return;
         }
         for i in 0..BATCH {
